@@ -220,6 +220,7 @@ func vtC29IdentifierValid(id string) bool              { return id == vtC29ID }
 func vtC29IdentifierTruncated(id string) string        { return "sync_01234567" }
 func vtC29NewTracker() *state.Tracker                  { return &state.Tracker{} }
 func vtC29TrackerNop(t *state.Tracker)                 {}
+func vtC29NotExtension() bool                          { return false }
 func vtC29TimestampNow() *timestamppb.Timestamp        { return &timestamppb.Timestamp{Seconds: 1000} }
 
 var vtC29Stubs = map[string]any{
@@ -238,6 +239,7 @@ var vtC29Stubs = map[string]any{
 	"(*github.com/mutagen-io/mutagen/pkg/state.Tracker).NotifyOfChange":               vtC29TrackerNop,
 	"(*github.com/mutagen-io/mutagen/pkg/state.Tracker).Terminate":                    vtC29TrackerNop,
 	"google.golang.org/protobuf/types/known/timestamppb.Now":                          vtC29TimestampNow,
+	"github.com/mutagen-io/mutagen/pkg/extension.EnvironmentIsExtension":              vtC29NotExtension,
 }
 
 var verifStubs_VerifC29History = vtC29Stubs
